@@ -250,6 +250,10 @@ class Check:
         pf = TH / props_file
         with BuildLock():
             self.tie["translation"] = regenerate()
+            for frag, st_ in self.tie["translation"].items():
+                if not st_["ok"]:
+                    self.notes.append(f"translator rejected the current source for {frag} ({st_.get('reason')}): the "
+                                      f"pinned text is used for it and the correspondence decides")
             bad = scan_forbidden()
             if bad:
                 self.broken.append({"kind": "forbidden-construct", "detail": bad})
